@@ -132,8 +132,29 @@ pub fn build(m: &PMsg, index: u32) -> DltMessage {
             arg_u32(&mut p, 0);
             arg_str(&mut p, "InitialData...");
             arg_str(&mut p, "[Hmi]");
-            arg_u32(&mut p, if v % 3 == 0 { 1228779599 } else { v });
-            arg_u32(&mut p, if v % 2 == 0 { 3478824001 } else { v.wrapping_mul(3) });
+            // interface / message id: u32 as a rule; sometimes another width
+            match (v / 100) % 6 {
+                0 => {
+                    put32(&mut p, 0x44);
+                    p.extend_from_slice(&(v as u64 * 1_000_003).to_le_bytes());
+                    arg_u32(&mut p, if v % 2 == 0 { 3478824001 } else { v.wrapping_mul(3) });
+                }
+                1 => {
+                    arg_u32(&mut p, if v % 3 == 0 { 1228779599 } else { v });
+                    put32(&mut p, 0x44);
+                    p.extend_from_slice(&u64::MAX.to_le_bytes());
+                }
+                2 => {
+                    put32(&mut p, 0x42);
+                    p.extend_from_slice(&(v as u16).to_le_bytes());
+                    put32(&mut p, 0x41);
+                    p.push(v as u8);
+                }
+                _ => {
+                    arg_u32(&mut p, if v % 3 == 0 { 1228779599 } else { v });
+                    arg_u32(&mut p, if v % 2 == 0 { 3478824001 } else { v.wrapping_mul(3) });
+                }
+            }
             arg_str(&mut p, "C/LC:");
             arg_u8(&mut p, 2);
             arg_u8(&mut p, 0);
